@@ -101,6 +101,10 @@ impl PayloadWriter {
             // of the last metric, since the previous parts of the buffer are still valid and could be flushed.
             self.buf.truncate(self.last_offset());
 
+            // Truncating also removed the length prefix placeholder of the payload we just discarded, so put it back
+            // for whatever gets written next.
+            self.prepare_for_write();
+
             return false;
         }
 
